@@ -411,6 +411,21 @@ def pair_cases(draw, tier):
     return {"g1": g1, "g2": g2, "cls": [cls], "mcs": [mcs], "cfg": cfg, "kind": kind}
 
 
+@st.composite
+def uniform_large_cases(draw, tier=None):
+    """Low-entropy pairs at the upper size bound: both graphs 6-7 nodes, one element, one bond order, drawn
+    independently (many non-isomorphic sub-patterns share their local invariants, so shortcuts keyed on
+    fingerprints of node subsets are exposed; maximality is decided by the own branch-and-bound)."""
+    na = gg.node_attr_strategy(elements=("C",), charges=None, hcounts=None, aromatic=None)
+    ea = gg.edge_attr_strategy(orders=(1,))
+    n1 = draw(st.sampled_from([6, 6, 7]))
+    n2 = draw(st.sampled_from([6, 7, 7]))
+    a = draw(gg.graphs(min_nodes=n1, max_nodes=n1, node_attrs=na, edge_attrs=ea, id_pool=200, max_components=2, extra_edge_p=draw(st.sampled_from([0.1, 0.25, 0.45]))))
+    b = draw(gg.graphs(min_nodes=n2, max_nodes=n2, node_attrs=na, edge_attrs=ea, id_pool=200, max_components=2, extra_edge_p=draw(st.sampled_from([0.1, 0.25, 0.45]))))
+    g1, g2 = draw(_renumber(a, list(range(1, 31)))), draw(_renumber(b, list(range(31, 71))))
+    return {"g1": g1, "g2": g2, "cls": [draw(st.sampled_from(["matcher", "mtg"]))], "mcs": [True], "cfg": {}, "kind": "uniform-large"}
+
+
 def strat_pairs(tier):
     return pair_cases(tier)
 
@@ -422,4 +437,6 @@ SUBS = [
     Sub("random_pairs", body, strategy=strat_pairs, examples={"quick": 8000, "thorough": 120000}, shards={"quick": 16, "thorough": 16},
         doc="constructed pairs up to 6x7 nodes (5x6 when all sizes are listed): planted cores, copies, one-edit copies, "
             "disconnected, independent; label / order representation and pruning options varied"),
+    Sub("uniform_large", body, strategy=uniform_large_cases, examples={"quick": 3200, "thorough": 48000}, shards={"quick": 16, "thorough": 16},
+        doc="independent single-label graphs with 6-7 nodes each, maximum mode, both classes: maximality against the own branch-and-bound"),
 ]
